@@ -38,6 +38,9 @@ def run(ctx):
     cands = [g for g in c02.gen_grammars(ctx, 220 if not thorough else 2500) if not g.has_error() and reduced(g)]
     recs, stats, ws = lrcommon.prepare_parsers(ctx, cands, flags=[])
     recs = [r for r in recs if r.bin][: (36 if not thorough else 400)]
+    # the same for parsers generated with -zip (tables decoded in init(); anything computed from them at package level comes first)
+    zrecs, zstats, ws = lrcommon.prepare_parsers(ctx, [r.g for r in recs[: (8 if not thorough else 60)]], flags=["-zip"], ws=ws, prefix="z")
+    recs = recs + [r for r in zrecs if r.bin]
     res, errs = lrobl.check_all(recs, lrobl.LR_CHECKS + [lrobl.X_CHECK], "c06")
     total, disagreements, reported = 0, 0, 0
     distinct = set()
